@@ -12,6 +12,8 @@ GenInit == /\ Init /\ h = <<>>
            /\ PrintT(<<"TABLE", ToJson(Table)>>)
            /\ \A x \in Queries, z \in DOMAIN ZoneOff :   \* every query, its bounds written in every zone
                   PrintT(<<"QUERY", ToJson(<<x.after, x.before, x.limit, IF x.ok THEN 1 ELSE 0, x.now, z>>)>>)
+           /\ \A e \in Cand, b \in Bounds \cup {0} :         \* readers: df_model_statistics(node of e) with boot time b
+                  PrintT(<<"READER", ToJson(<<b, e>>)>>)
 GenNext == \E e \in Cand : DoAppend(e) /\ h' = Append(h, e)
 GenSpec == GenInit /\ [][GenNext]_gvars
 View == vars
